@@ -117,15 +117,17 @@ func init() {
 			{Plugin: "handler-contract", Func: "mobius.HandleDeleteUser", Kinds: []string{"site"}},
 			{Plugin: "handler-contract", Func: "mobius.HandleUpdateUser", Kinds: []string{"site"}},
 			{Plugin: "passwords", Func: "mobius.HandleSetUser"},
+			{Plugin: "handler-contract", Func: "mobius.HandleSetUser", Kinds: []string{"site"}},
 			{Plugin: "passwords", Func: "mobius.HandleUpdateUser"},
 			{Func: "hotline.NewAccount"},
 		},
 		Decided: []string{
+			"HandleSetUser: the password field absent stores the hash of the empty password, the one-byte marker {0} computes no hash (hence stores nothing), any other value is hashed as given; the account is written back under its own login",
 			"YAMLAccountManager.Create / Update / Delete / Get are proved against the whole account table: Create adds exactly the account under its login, Update leaves exactly the new login holding the given name, password hash and privileges and removes a renamed-away login, Delete removes exactly the login, every other entry is unchanged; the marshalled bytes handed to the file writer are those of the account the table then holds (Login already renamed); success is reported only if the file operation succeeded; the table is only touched under the mutex",
 			"handlers: delete-user deletes the decoded login; batched update-user resolves the account of an entry from that entry's own fields; passwords are stored only as results of HashAndSalt",
 			"Authenticate: true iff the login is in the table and bcrypt accepts the password for its hash (C04)",
 		},
-		Undecided: []string{"YAML round trip on restart (library)", "the exact password rule cases (unchanged marker / absent) are not yet under contract"},
+		Undecided: []string{"YAML round trip on restart (library)", "the password cases of the batched editor (HandleUpdateUser) are covered by the hash-taint obligations only, not case by case"},
 	}
 	plans["C03"] = &Plan{
 		Items: append([]Item{{Plugin: "contain"}}, fnItems([]string{"guarded", "nopanic"},
@@ -150,12 +152,16 @@ func init() {
 	plans["C12"] = &Plan{
 		Items: append([]Item{
 			{Plugin: "handler-contract", Func: "mobius.HandleChatSend", Kinds: []string{"site"}},
+			{Plugin: "handler-contract", Func: "mobius.HandleJoinChat", Kinds: []string{"site"}},
+			{Plugin: "handler-contract", Func: "mobius.HandleLeaveChat", Kinds: []string{"site"}},
+			{Plugin: "handler-contract", Func: "mobius.HandleSetChatSubject", Kinds: []string{"site"}},
 		}, fnItems([]string{"post", "guarded"}, "hotline.(*MemChatManager).Join", "hotline.(*MemChatManager).Leave", "hotline.(*MemChatManager).New")...),
 		Decided: []string{
 			"HandleChatSend: every chat line handed to a recipient (field 101 of a chat message) is at most 8192 bytes long, in the plain and in the emote form; a public line is addressed only to clients whose account holds read-chat; every transaction it produces is a chat message (106)",
+			"private-chat lines, join / leave notices and subject changes are built one per element of ChatManager.Members(chat named by the request), each addressed to that element and carrying that chat's ID; the join notice goes to the members before the join, the leave notice to the members after the leaver was removed",
 			"MemChatManager.Join adds exactly the joining client to the addressed chat; Leave removes exactly the leaving client and never the chat itself; New creates a chat whose only member is its creator; all other chats and members are unchanged (whole-map frames); the chat table is only touched under its mutex",
 		},
-		Undecided: []string{"exactly-once delivery to every member (Members / List with range + sort are not under functional contract)", "text format strings; invite / join / leave / subject handlers' recipient sets; delivery order"},
+		Undecided: []string{"exactly-once delivery to every member (Members / List with range + sort are not under functional contract)", "text format strings; invite / decline handlers; delivery order; that ranging over the member slice visits every element exactly once is Go's range semantics, not an obligation"},
 	}
 	plans["C18"] = &Plan{
 		Items: append([]Item{
@@ -203,12 +209,14 @@ func init() {
 		Items: []Item{
 			{Plugin: "sites", Func: "hotline.UploadHandler", Kinds: siteKinds},
 			{Plugin: "sites", Func: "hotline.receiveFile", Kinds: siteKinds},
+			{Plugin: "handler-contract", Func: "mobius.HandleUploadFile", Kinds: []string{"site"}},
 		},
 		Decided: []string{
+			"HandleUploadFile: a transfer is registered only when the final name does not exist; for a resume request the offset reported (resume data field 203) is the size of <final name>.incomplete, taken from a successful Stat of exactly that path",
 			"UploadHandler: the partial file is opened with O_APPEND and without O_TRUNC; it is opened only when the final name does not exist; the rename to the final name is reached only on paths where receiveFile returned nil and the final name did not exist",
 			"receiveFile: returns nil only if exactly the declared data-fork size was written to the target (io.CopyN contract)",
 		},
-		Undecided: []string{"resume offset reported by HandleUploadFile equals the size of the partial file (not yet under contract)", "content equality upload = later download is the composition with C08"},
+		Undecided: []string{"content equality upload = later download is the composition with C08 (not a single pre/post pair)", "the wire form of the resume data (FileResumeData.BinaryMarshal is not under a functional contract)"},
 	}
 	plans["C08"] = &Plan{
 		Items: append([]Item{
@@ -277,7 +285,8 @@ func init() {
 		Undecided: []string{"Transaction.Read as a whole (field concatenation) is not yet under contract", "delivery order between goroutines; at most one reply per request per handler"},
 	}
 	plans["C13"] = &Plan{
-		Items: fnItems(nil, "hotline.(*UserFlags).IsSet", "hotline.(*MemClientMgr).Add", "hotline.(*MemClientMgr).Delete", "hotline.(*MemClientMgr).Get", "hotline.(*MemClientMgr).List"),
+		Items: append(fnItems(nil, "hotline.(*UserFlags).IsSet", "hotline.(*MemClientMgr).Add", "hotline.(*MemClientMgr).Delete", "hotline.(*MemClientMgr).Get", "hotline.(*MemClientMgr).List"),
+			Item{Plugin: "handler-contract", Func: "mobius.HandleSetClientUserInfo", Kinds: []string{"site"}}),
 		Decided: []string{
 			"MemClientMgr.Add: the ID assigned is not held by any registered client, for every value of the 32-bit counter (also across the 16-bit wrap); the new client is registered under it; every other entry is unchanged",
 			"Delete removes exactly the addressed entry; Get returns the client registered under the ID or nil",
